@@ -4,6 +4,7 @@ mod c03;
 mod c05;
 mod c06;
 mod c07;
+mod c09;
 mod c10;
 mod c11;
 mod content;
@@ -53,6 +54,10 @@ macro_rules! with_engine {
                 let $e = c07::C07;
                 $body
             }
+            "C09" => {
+                let $e = c09::C09;
+                $body
+            }
             "C11" => {
                 let $e = c11::C11::new();
                 $body
@@ -69,7 +74,7 @@ macro_rules! with_engine {
     };
 }
 
-pub const ALL_ENGINES: &[&str] = &["C03", "C05", "C06", "C07", "C08", "C10", "C11"];
+pub const ALL_ENGINES: &[&str] = &["C03", "C05", "C06", "C07", "C08", "C09", "C10", "C11"];
 
 fn do_replay<E: Engine>(engine: &E, path: &Path) -> i32 {
     match runner::replay(engine, path) {
